@@ -43,6 +43,7 @@ func init() {
 		},
 	})
 	mon.Subcommands["c14child"] = child
+	mon.Subcommands["c14seqone"] = seqOne
 	mon.Subcommands["c14ref"] = ref
 	mon.Subcommands["c14seq"] = seqChild
 }
@@ -69,6 +70,9 @@ var sources = []string{
 	"T | summarize count() by ia | where iif(true, now() > 0, isnotnull(ia))",
 	"T; U",
 	"let lo = -1; T | where a > lo",
+	"let lim2 = 99",
+	"T | take 5 | where lim2 == 1",
+	"let lim2 = -1;",
 	"let null = 0; T | where x == null | count",
 	"let true = false; T | where true and a | extend y = true",
 	"let false = 1; let n = false; T | take n | where b == false",
@@ -192,6 +196,29 @@ func init() {
 		"T | join (U) on k, k, $left.a == $right.a, $left.a == $right.a",
 		"T | where a in (1, 2, 1, 2, 3) and f(a, a, a)",
 		"T | as X | as Y | join (X) on k | join (Y) on k | join (X) on k")
+}
+
+func init() {
+	// forty statements, five of them with different parse errors
+	var sb strings.Builder
+	for i := 0; i < 40; i++ {
+		switch i {
+		case 3:
+			sb.WriteString("T | where (;\n")
+		case 11:
+			sb.WriteString("T | bogus x;\n")
+		case 17:
+			sb.WriteString("let = 5;\n")
+		case 29:
+			sb.WriteString("T | take 1.5 | project;\n")
+		case 36:
+			sb.WriteString("T | join (U on k;\n")
+		default:
+			fmt.Fprintf(&sb, "let v%d = %d;\n", i, i)
+		}
+	}
+	sb.WriteString("T | take v39")
+	sources = append(sources, sb.String())
 }
 
 func optionSet() []*pql.CompileOptions {
@@ -515,8 +542,25 @@ func seqCalls(seed int64, n int) (srcs []string, opt []int) {
 	distinct := func(k int) string {
 		return fmt.Sprintf("`t%d\"x` | where `c\\%d` == 'v%d' and f%d(a) > %d | project `c\\%d`, n%d = %d | as `s%d\"`", k, k, k, k, 1000+k, k, k, k, k)
 	}
+	big := func(k int, ok bool) string {
+		var sb strings.Builder
+		sb.WriteString("T")
+		for sb.Len() < 70_000 {
+			fmt.Fprintf(&sb, "\n| where c%d == 'a fairly long literal to make the source large, number %d' or isnull(c%d)", k, sb.Len(), k)
+		}
+		if !ok {
+			sb.WriteString(" | where (")
+		}
+		return sb.String()
+	}
 	for i := 0; i < n; i++ {
 		var s string
+		if i >= 20 && i < 34 {
+			// sources of 70 KB: six that do not parse, then ones that do, then one more of each
+			srcs = append(srcs, big(i, i >= 26 && i != 33))
+			opt = append(opt, rng.Intn(len(optNames)))
+			continue
+		}
 		if i%3 == 0 && i/3 < 400 {
 			k := i / 3
 			if k >= 200 {
@@ -550,6 +594,19 @@ func seqCalls(seed int64, n int) (srcs []string, opt []int) {
 	return
 }
 
+// seqOne performs call i of a history as the first and only call of the process.
+func seqOne(args []string) {
+	seed, _ := strconv.ParseInt(args[0], 10, 64)
+	n, _ := strconv.Atoi(args[1])
+	i, _ := strconv.Atoi(args[2])
+	srcs, opt := seqCalls(seed, n)
+	opts := optionSet()
+	opts[opt[i]].Compile(srcs[i])
+	parser.Parse(srcs[i])
+	parser.Scan(srcs[i])
+	fmt.Print("returned")
+}
+
 func seqChild(args []string) {
 	seed, _ := strconv.ParseInt(args[0], 10, 64)
 	n, _ := strconv.Atoi(args[1])
@@ -576,7 +633,33 @@ func seqChild(args []string) {
 	opts := optionSet()
 	snapshot := snapshotParams(opts)
 	res := make([]string, n)
+	// a call that does not return within a generous wall-clock allowance ends the
+	// history: the calls made so far are reported, the stalled one is marked (the
+	// coordinator compares with the other orders, in which that call may return)
+	var current atomic.Int64
+	current.Store(-1)
+	var progress atomic.Int64
+	go func() {
+		last, since := int64(-1), time.Now()
+		for {
+			time.Sleep(200 * time.Millisecond)
+			if p := progress.Load(); p != last {
+				last, since = p, time.Now()
+				continue
+			}
+			if time.Since(since) > 25*time.Second {
+				if i := current.Load(); i >= 0 {
+					res[i] = "STALLED"
+				}
+				b, _ := json.Marshal(res)
+				os.WriteFile(outFile, b, 0o644)
+				os.Exit(0)
+			}
+		}
+	}()
 	for _, i := range idx {
+		current.Store(int64(i))
+		progress.Add(1)
 		func() {
 			defer func() {
 				if p := recover(); p != nil {
@@ -811,12 +894,46 @@ func runWith(c *mon.Custom, replayCase json.RawMessage) {
 					json.Unmarshal(b, &results[oi])
 				}
 				srcs, opt := seqCalls(sseed, nCalls)
+				// a call that did not return in a history is made once more as the
+				// first and only call of a fresh process: if it returns there, whether
+				// it returns depends on the calls before it
+				for oi := 0; oi < 3; oi++ {
+					for i, v := range results[oi] {
+						if v != "STALLED" {
+							continue
+						}
+						out, err := exec.Command("timeout", "-s", "KILL", "90", plain, "c14seqone", fmt.Sprint(sseed), fmt.Sprint(nCalls), fmt.Sprint(i)).Output()
+						if err == nil && string(out) == "returned" {
+							c.Violation(fmt.Sprintf("seq-stall|%d|%d", k, i), "", fmt.Sprintf("whether a call returns depends on the calls made before it: Compile/Parse/Scan of %q returns as the first and only call of a fresh process, and does not return within 25 s as call %d of a history of %d calls executed %s (history seed %d)",
+								clip(srcs[i], 200), i, nCalls, []string{"forward", "in reverse", "shuffled"}[oi], sseed), map[string]any{"seq_seed": sseed, "call": i})
+							return
+						}
+						c.Inconclusive("sequential_history_call_does_not_return_alone_either")
+					}
+				}
 				for oi := 1; oi < 3; oi++ {
 					if len(results[oi]) != len(results[0]) {
 						c.Violation(fmt.Sprintf("seq-params|%d", k), "", "a sequential history modified the shared parameter map in one order but not in another", map[string]any{"seed": sseed})
 						return
 					}
 					for i := range results[0] {
+						a, b := results[0][i], results[oi][i]
+						if a == "" || b == "" {
+							continue // not reached in one of the orders (its history ended at a stalled call)
+						}
+						if (a == "STALLED") != (b == "STALLED") {
+							src := "?"
+							if i < len(srcs) {
+								src = clip(srcs[i], 200)
+							}
+							c.Violation(fmt.Sprintf("seq-stall|%d|%d", k, i), "", fmt.Sprintf("whether a call returns depends on the calls made before it: Compile/Parse/Scan of %q does not return within 25 s in a history of %d calls executed %s, and returns when the history is executed %s (history seed %d, call %d)",
+								src, nCalls, []string{"forward", "in reverse", "shuffled"}[map[bool]int{true: 0, false: oi}[a == "STALLED"]], []string{"forward", "in reverse", "shuffled"}[map[bool]int{true: oi, false: 0}[a == "STALLED"]], sseed, i), map[string]any{"seq_seed": sseed, "call": i})
+							return
+						}
+						if a == "STALLED" {
+							c.Inconclusive("sequential_history_call_stalls_in_every_order")
+							continue
+						}
 						if results[0][i] != results[oi][i] {
 							src := "(parameter map check)"
 							if i < len(srcs) {
